@@ -34,6 +34,11 @@ CLAIMS = {
   text="Exploration: random trees over every node kind with its own equality rule (biased to several same-kind and duplicate siblings) are built through the API; each is deep-copied into a fresh document (equal text, disjoint identity sets, source and source document unchanged, a later mutation of either side never shows in the other), compared with every permutation of each child list of up to 4 entries and with a random shuffle of all levels, compared symmetrically with independent trees, edited copies and same-kind value swaps, and with insert/delete/change edits of plain nodes which must never be deep-equal. One documented-behaviour finding (C07-F1: Before/After dates make Date.Equals a non-equivalence) is excluded by class and counted.",
   note="Trusted: identity via interface values and RawSimpleNode pointers; copies go to a fresh document. Cases inside finding class C07-F1 that fail are counted as excluded_known, passing behaviour inside the class is still checked.",
   design="6.7"),
+ "C08": dict(
+  technique="invariant-checking PBT (rapid) over generated tree pairs and operation sequences: accounting invariants on the NodeDiff, purity of inputs after every operation",
+  text="Exploration: pairs of trees (independent, permuted copies, copies with uniquely tagged leaves inserted on either side) are diffed and then driven through random sequences of String/IsDeepEqual/Sort/Tag/CompareAgain. After CompareNodes and after every step: each entry side is, by identity, a node of the correct input at the entry's depth and never both absent; every input node is represented under the entry representing its parent; unique leaves give exactly one one-sided entry on the correct side; IsDeepEqual equals 'all two-sided' at every entry; deep-equal inputs give an all-two-sided diff; both inputs' GEDCOM text and node counts are unchanged. One documented-behaviour finding class (C08-F1) is excluded and counted.",
+  note="Trusted: 'equal' for coverage = Equals either way or same tag/value/pointer; deep-equal premise computed with DeepEqual both ways.",
+  design="6.8"),
  "C12": dict(
   technique="metamorphic PBT (rapid) + exhaustive string-pair enumeration: range, operand-swap symmetry, identity, monotonicity, shift invariance, neutral 0.5",
   text="Exploration: all ordered string pairs over {a,b} up to length 9 (thorough 10) and {a,b,c} up to 5 (6) are enumerated; random name pairs (punctuation, case, digits, other scripts; independent or edited copies) x boost/prefix parameters, random date triples (all shapes, keywords, ranges) x MaxYears, and pairs of random family graphs x default/random options (weights summing to 1) are generated. Oracles: every score in [0,1] and not NaN, f(a,b)=f(b,a) for strings, dates, individuals, lists, families and surrounding similarity, 1 on identical names/dates, date similarity monotone in |Years difference|, 0 beyond MaxYears, unchanged under a 400-year shift, exactly 0.5 for the documented missing-information cases and list padding.",
